@@ -180,8 +180,46 @@ def check(R, tier):
     finally:
         I.models[:] = saved
     wiring(R, I, R.mir_path('tough'))
+    hash_eq_consistency(R, I)
     native_validation(R)
     finalize(R)
+
+def hash_eq_consistency(R, I):
+    """the duplicate check of the key table is `HashMap::insert(..).is_none()`: it is only a duplicate check if Hash and Eq of the identifier
+    type look at the same thing.  Run both impls of Decoded<T> from MIR against recording models: each must consume exactly the decoded bytes."""
+    import re
+    from layout import F
+    def find(suffix, first):
+        for n, fs in I.funcs.items():
+            if 'schema/decoded.rs' in n and n.endswith(suffix) and fs[0].args.startswith(first): return fs[0]
+        return None
+    seen = {}
+    def m_feed(I_, s, fr, c, a, d, de, rb):
+        v = deref(I_, s, a[0])
+        while isinstance(v, Ref): v = I_.deref_load(s, v)
+        s.events.append(('consumed', v.d.get('field') if isinstance(v, Obj) else repr(v)[:40])); return unit() if 'Hash' in c else z3.Bool(fresh_name('bytes_equal'))
+    ms = [(re.compile(r' as Hash>::hash::<'), m_feed), (re.compile(r'^<Vec<u8> as PartialEq(<.*>)?>::eq$'), m_feed), (re.compile(r'^<std::string::String as (Hash>::hash::<|PartialEq>::eq$)'), m_feed),
+          (re.compile(r'^<PhantomData<.*> as (Hash>::hash::<|PartialEq>::eq$)'), m_feed)]
+    def val(tag): return Adt('Decoded', None, {(None, F('Decoded', 'bytes')): Obj('vec', field='bytes', tag=tag), (None, F('Decoded', 'original')): Obj('str', field='original', tag=tag), (None, F('Decoded', 'spooky')): Obj('phantom', field='spooky')})
+    saved = list(I.models); I.models[:0] = ms
+    try:
+        for what, fn, args in (('Hash', find('::hash', '_1: &Decoded<T>, _2: &mut H'), lambda st: [Ref(st.alloc(val('a'))), Ref(st.alloc(Obj('hasher')))]),
+                               ('PartialEq', find('::eq', '_1: &Decoded<T>, _2: &Decoded<T>'), lambda st: [Ref(st.alloc(val('a'))), Ref(st.alloc(val('b')))])):
+            if fn is None:
+                R.inconclusive.append(f'<Decoded<T> as {what}> not found in the MIR'); continue
+            st = State(); st.env['fs'] = {}
+            I.push_call(st, fn, args(st), None, None, generics={'T': 'Hex', 'H': 'H'})
+            done = []; I.run(st, done.append)
+            R.check_interp_clean(I, f'<Decoded<T> as {what}>')
+            for s_ in done:
+                R.paths += 1
+                fields = sorted({e[1] for e in s_.events if e[0] == 'consumed'})
+                seen[what] = fields
+                R.obligation(f'<Decoded<T> as {what}> looks at the decoded bytes and nothing else (so equal identifiers hash alike and HashMap::insert detects a repeated identifier whatever its spelling)', s_.pc,
+                             z3.BoolVal(fields == ['bytes']), decode=lambda m, what=what, fields=fields: {'kind': 'hash-eq', 'impl': what, 'consumes': fields}, group='hash-eq-consistent')
+    finally:
+        I.models[:] = saved
+    R.samples.append({'Decoded<T> Hash / PartialEq consume': seen})
 
 def native_validation(R):
     res = R.replay('keyids', {})
